@@ -6,7 +6,7 @@ import copy
 import gzip
 import json
 import os
-from typing import Any, Dict, List
+from typing import Any, Dict, List, Optional
 
 from hv import core, cpdrv, drv, gen_struct
 from hv.ref import cp as refcp
@@ -37,6 +37,22 @@ def read_any(path: str) -> Dict[str, Any]:
         head = fh.read(2)
     with (gzip.open(path, "rb") if head == b"\x1f\x8b" else open(path, "rb")) as fh:
         return json.loads(fh.read())
+
+
+def read_as_named(path: str, res, tag: str) -> Optional[Dict[str, Any]]:  # noqa: ANN001
+    """A written file is read the way its name says, as the library's own readers do (.gz: gzip, otherwise JSON text): its events
+    cannot be said to be there if the file cannot be read back."""
+    try:
+        with (gzip.open(path, "rt", encoding="utf-8") if path.endswith(".gz") else open(path, "r", encoding="utf-8")) as fh:
+            out = json.loads(fh.read())
+    except (UnicodeDecodeError, OSError, ValueError, EOFError) as e:
+        with open(path, "rb") as fh:
+            head = fh.read(2)
+        res.bad("written-file-reads-as-named", f"{tag}: {os.path.basename(path)} cannot be read the way its name says ({type(e).__name__}); "
+                f"first bytes {head!r}")
+        return None
+    res.counters["written_plain_json" if not path.endswith(".gz") else "written_gz"] += 1
+    return out
 
 
 def gen_case(rnd, tier: str, i: Any) -> Dict[str, Any]:
@@ -116,7 +132,9 @@ def check_source_preserved(src: List[dict], out_events: List[dict], critical: se
 
 def check_overlay(A, opt, out_path: str, src_trace, res, tag) -> None:  # noqa: ANN001
     g = A.graph
-    out = read_any(out_path)
+    out = read_as_named(out_path, res, tag)
+    if out is None:
+        return
     ev = out["traceEvents"]
     src = src_trace["traceEvents"]
     # the critical path's events, from the path itself (not from the set the overlay reads)
@@ -242,8 +260,8 @@ def run_case(case: Dict[str, Any], ctx: Any) -> core.CaseResult:
                     res.counters["counter_files_checked"] += 1
                     if case.get("argless"):
                         res.counters["counter_files_from_traces_with_argless_events"] += 1
-                    out = read_any(outp)
-                    if check_source_preserved(src_trace["traceEvents"], out["traceEvents"], set(), res, tag):
+                    out = read_as_named(outp, res, tag)
+                    if out is not None and check_source_preserved(src_trace["traceEvents"], out["traceEvents"], set(), res, tag):
                         bad = [e for e in out["traceEvents"][len(src_trace["traceEvents"]):] if e.get("ph") != "C"]
                         if bad:
                             res.bad("only-counters-appended", f"{tag}: appended event is not a counter event: {core.short(bad[0], 200)}")
